@@ -37,7 +37,14 @@ def arc_from_theta(edge_point_1: PointType, edge_point_2: PointType, angle: floa
 
     center = pm - length * axis / 2 - rm * mag_chord / 2 / np.tan(angle / 2)
 
-    return f.arc_mid(axis, center, edge_point_1, edge_point_2)
+    arc_point = f.arc_mid(axis, center, edge_point_1, edge_point_2)
+
+    if abs(angle) > np.pi:
+        # arc_mid() projects the middle of the chord, which lies on the shorter arc;
+        # the middle of an arc longer than half a circle is diametrically opposite
+        arc_point = 2 * center - arc_point
+
+    return arc_point
 
 
 @dataclasses.dataclass
